@@ -293,6 +293,7 @@ struct H2Client {
     end_stream: bool,
     rst: Option<u32>,
     goaway: usize,
+    pings: usize,
     closed: bool,
 }
 
@@ -320,7 +321,7 @@ impl H2Client {
         out.extend(h2_frame(1, 0x5, 1, &hb));
         tls.write_all(&out).map_err(|e| format!("h2 write: {e}"))?;
         tls.flush().map_err(|e| format!("h2 flush: {e}"))?;
-        Ok(H2Client { tls, buf: vec![], data: vec![], end_stream: false, rst: None, goaway: 0, closed: false })
+        Ok(H2Client { tls, buf: vec![], data: vec![], end_stream: false, rst: None, goaway: 0, pings: 0, closed: false })
     }
     fn send(&mut self, bytes: &[u8]) -> Result<(), String> {
         use std::io::Write;
@@ -360,6 +361,11 @@ impl H2Client {
                     4 if flags & 1 == 0 => {
                         let ack = h2_frame(4, 1, 0, &[]);
                         let _ = self.send(&ack);
+                    }
+                    6 if flags & 1 == 0 => {
+                        let ack = h2_frame(6, 1, 0, &payload);
+                        let _ = self.send(&ack);
+                        self.pings += 1;
                     }
                     7 => self.goaway += 1,
                     _ => {}
@@ -432,18 +438,20 @@ struct Client {
     /// backend thread still pushing a large response
     writer: Option<JoinHandle<()>>,
     h2: Option<H2Client>,
+    /// the h2 connection was already closed by sozu when the SoftStop was about to be sent
+    dead_before_stop: bool,
 }
 
 impl Client {
     /// has a request (or stream) under way
     fn inflight(&self) -> bool {
-        matches!(self.phase.as_str(), "head" | "sent" | "midbody" | "tcpmid" | "buftail" | "h2tail")
+        matches!(self.phase.as_str(), "head" | "sent" | "midbody" | "tcpmid" | "buftail" | "h2tail" | "h2stoptail")
     }
     /// ... that the worker waits for before acknowledging a SoftStop: an HTTP
     /// request whose head was received in full (`Mux::shutting_down` only
     /// looks at linked streams; `TcpSession::shutting_down` is always true)
     fn holds_stop(&self) -> bool {
-        matches!(self.phase.as_str(), "sent" | "midbody" | "buftail" | "h2tail")
+        !self.dead_before_stop && matches!(self.phase.as_str(), "sent" | "midbody" | "buftail" | "h2tail" | "h2stoptail")
     }
 }
 
@@ -566,10 +574,10 @@ fn run_with_old(sc: &Scenario, run: &mut Run, w1: &mut HW) -> Result<(), String>
             b.read_until_len(17, T);
             b.write_all(&body_of(i)[..BODY / 2], T).map_err(|e| e.to_string())?;
             c.read_until_len(BODY / 2, T);
-            clients.push(Client { phase: phase.clone(), conn: Some(c), back: Some(b), backend, idx: i, done: false, tcp: true, writer: None, h2: None });
+            clients.push(Client { phase: phase.clone(), conn: Some(c), back: Some(b), backend, idx: i, done: false, tcp: true, writer: None, h2: None, dead_before_stop: false });
             continue;
         }
-        if phase == "h2tail" {
+        if phase == "h2tail" || phase == "h2stoptail" {
             // an HTTPS listener of its own (IPv4: the TLS client of the rig), h2 client with the
             // default 65535-byte windows, HTTP/1.1 backend answering 70000 bytes + Connection: close
             let rsv = reserve(false, false)?;
@@ -578,7 +586,7 @@ fn run_with_old(sc: &Scenario, run: &mut Run, w1: &mut HW) -> Result<(), String>
             w1.ok(RequestType::ActivateListener(ActivateListener { address: a.into(), proxy: ListenerType::Https.into(), from_scm: false }))?;
             reserved.push(rsv);
             declared[1].push(a);
-            let path = format!("/h2tail{i}");
+            let path = if std::env::var("HO_H2_VARIANT").map(|v| v == "demo" || v == "rootpath").unwrap_or(false) { "/".to_string() } else { format!("/h2tail{i}") };
             w1.ok(RequestType::AddHttpsFrontend(RequestHttpFrontend { cluster_id: Some(cid.clone()), address: a.into(), hostname: "localhost".into(), path: PathRule::prefix(path.clone()), position: RulePosition::Tree.into(), ..Default::default() }))?;
             w1.ok(RequestType::AddCertificate(AddCertificate {
                 address: a.into(),
@@ -589,16 +597,29 @@ fn run_with_old(sc: &Scenario, run: &mut Run, w1: &mut HW) -> Result<(), String>
             let mut h2 = H2Client::get(a, "localhost", &path)?;
             let mut b = backend.accept(T).map_err(|e| format!("h2tail backend accept: {e}"))?;
             b.read_until(b"\r\n\r\n", T);
-            let variant = std::env::var("HO_H2_VARIANT").unwrap_or_default();
-            let head = if variant == "nocloseheader" || variant == "keepopen" {
+            // `h2stoptail` is the sequencing of the C01 seed demonstration (response head with a
+            // Content-Type line, backend half-closes and keeps reading, 300 ms before the stop): the
+            // unchanged tree delivers the tail there; `h2tail` (shorter head, full close) hits the
+            // registered baseline defect before any SoftStop
+            let variant = if phase == "h2stoptail" { "demo".to_string() } else { std::env::var("HO_H2_VARIANT").unwrap_or_default() };
+            let head = if variant == "demo" || variant == "ctype" {
+                format!("HTTP/1.1 200 OK\r\nContent-Type: text/plain\r\nContent-Length: {H2_BODY}\r\nConnection: close\r\n\r\n")
+            } else if variant == "nocloseheader" || variant == "keepopen" {
                 format!("HTTP/1.1 200 OK\r\nContent-Length: {H2_BODY}\r\n\r\n")
             } else {
                 format!("HTTP/1.1 200 OK\r\nContent-Length: {H2_BODY}\r\nConnection: close\r\n\r\n")
             };
             b.write_all(head.as_bytes(), T).map_err(|e| e.to_string())?;
             b.write_all(&h2_body(i), T).map_err(|e| e.to_string())?;
+            let mut keep_back = None;
             if variant == "keepopen" {
                 std::mem::forget(b);
+            } else if variant == "halfclose" || variant == "demo" {
+                if let Ok(ms) = std::env::var("HO_FIN_DELAY_MS") {
+                    thread::sleep(Duration::from_millis(ms.parse().unwrap_or(0)));
+                }
+                b.shutdown_write();
+                keep_back = Some(b);
             } else {
                 b.close();
             }
@@ -607,8 +628,8 @@ fn run_with_old(sc: &Scenario, run: &mut Run, w1: &mut HW) -> Result<(), String>
             if h2.data.len() != 65535 {
                 return Err(format!("h2tail set-up: {} bytes before the window closed", h2.data.len()));
             }
-            thread::sleep(Duration::from_millis(30));
-            clients.push(Client { phase: phase.clone(), conn: None, back: None, backend, idx: i, done: false, tcp: false, writer: None, h2: Some(h2) });
+            thread::sleep(Duration::from_millis(if phase == "h2stoptail" { 300 } else { 30 }));
+            clients.push(Client { phase: phase.clone(), conn: None, back: keep_back, backend, idx: i, done: false, tcp: false, writer: None, h2: Some(h2), dead_before_stop: false });
             continue;
         }
         let host = format!("c{i}.local");
@@ -661,7 +682,7 @@ fn run_with_old(sc: &Scenario, run: &mut Run, w1: &mut HW) -> Result<(), String>
             }
             _ => return Err(format!("unknown phase {phase}")),
         }
-        clients.push(Client { phase: phase.clone(), conn: Some(c), back, backend, idx: i, done: false, tcp: false, writer, h2: None });
+        clients.push(Client { phase: phase.clone(), conn: Some(c), back, backend, idx: i, done: false, tcp: false, writer, h2: None, dead_before_stop: false });
     }
 
     // ---- connector hammering the addresses during the hand-over
@@ -778,7 +799,7 @@ fn run_with_old(sc: &Scenario, run: &mut Run, w1: &mut HW) -> Result<(), String>
         // ---- some in-flight requests finish before the stop
         let mut finished = 0;
         let bt_early = std::env::var("HO_BUFTAIL_EARLY").is_ok();
-        for c in clients.iter_mut().filter(|c| c.inflight() && (c.phase != "h2tail" || bt_early) && (c.phase != "buftail" || bt_early)) {
+        for c in clients.iter_mut().filter(|c| c.inflight() && c.phase != "h2stoptail" && (c.phase != "h2tail" || bt_early) && (c.phase != "buftail" || bt_early)) {
             if finished >= sc.early && !(bt_early && (c.phase == "buftail" || c.phase == "h2tail")) {
                 break;
             }
@@ -786,6 +807,16 @@ fn run_with_old(sc: &Scenario, run: &mut Run, w1: &mut HW) -> Result<(), String>
             finished += 1;
         }
 
+        // ---- is the window-limited h2 client still connected? (the registered baseline defect
+        // tears such a session down when the backend closes, before any stop)
+        for c in clients.iter_mut() {
+            if let Some(h2) = c.h2.as_mut() {
+                if !c.done {
+                    h2.pump(Duration::from_millis(20), |_| false);
+                    c.dead_before_stop = h2.closed;
+                }
+            }
+        }
         // ---- soft stop of the old worker, trace fed to the Lean model
         let inflight = clients.iter().filter(|c| c.holds_stop() && !c.done).count();
         let idle = clients.iter().filter(|c| !c.holds_stop() && !c.done).count();
@@ -998,7 +1029,7 @@ fn finish_client(c: &mut Client, run: &mut Run) {
             wu.extend(h2_frame(8, 0, 1, &(H2_BODY as u32).to_be_bytes()));
             if let Err(e) = h2.send(&wu) {
                 h2.pump(Duration::from_millis(200), |c| c.end_stream || c.rst.is_some());
-                return Err(format!("{e}; h2 client had {} of {H2_BODY} bytes, END_STREAM={}, RST_STREAM={:?}, GOAWAY frames={}, connection closed={}", h2.data.len(), h2.end_stream, h2.rst, h2.goaway, h2.closed));
+                return Err(format!("{e}; h2 client had {} of {H2_BODY} bytes, END_STREAM={}, RST_STREAM={:?}, GOAWAY frames={}, PINGs={}, connection closed={}", h2.data.len(), h2.end_stream, h2.rst, h2.goaway, h2.pings, h2.closed));
             }
             h2.pump(Duration::from_secs(3), |c| c.end_stream || c.rst.is_some());
             if h2.data.len() != H2_BODY || !h2.end_stream {
@@ -1087,8 +1118,10 @@ fn finish_client(c: &mut Client, run: &mut Run) {
     if let Err(e) = res {
         let class = if c.tcp {
             "inflight-request-cut:tcp-stream".to_string()
-        } else if c.phase == "h2tail" {
+        } else if c.h2.is_some() && c.dead_before_stop {
             "inflight-request-cut:buffered-tail".to_string()
+        } else if c.h2.is_some() {
+            "inflight-request-cut:softstop-buffered-tail".to_string()
         } else if c.phase == "buftail" {
             // (also seen without any SoftStop: see the `slow-reader` family)
             "h1-response-truncated:slow-reader-backend-closed".to_string()
@@ -1126,14 +1159,18 @@ impl Area for Handover {
         let s = |x: &str| vec!["new".to_string(), x.to_string()];
         if self.family.as_deref() == Some("buffered-tail") {
             return vec![
+                s("handover L=1,0,0,0 v6=0 clients=h2stoptail early=0 mode=stop hammer=0"),
+                s("handover L=1,0,0,0 v6=0 clients=h2stoptail early=0 mode=handover hammer=0"),
                 s("handover L=1,0,0,0 v6=0 clients=h2tail early=0 mode=stop hammer=0"),
-                s("handover L=1,0,0,0 v6=0 clients=h2tail early=0 mode=handover hammer=0"),
             ];
         }
         if self.family.as_deref() == Some("slow-reader") {
             return vec![s("handover L=1,0,0,0 v6=0 clients=buftail early=0 mode=stop hammer=0")];
         }
         vec![
+            s("handover L=1,0,0,0 v6=0 clients=h2stoptail early=0 mode=stop hammer=0"),
+            s("handover L=2,0,1,0 v6=50 clients=sent+h2stoptail early=0 mode=handover hammer=1"),
+            s("handover L=1,0,0,0 v6=0 clients=h2tail early=0 mode=stop hammer=0"),
             s("handover L=1,0,0,0 v6=0 clients=sent early=0 mode=handover hammer=1"),
             s("handover L=1,1,1,1 v6=50 clients=idle+midbody+head+connected early=1 mode=handover hammer=1"),
             s("handover L=1,0,1,0 v6=0 clients=sent+tcpmid early=0 mode=stop hammer=0"),
@@ -1160,11 +1197,13 @@ impl Area for Handover {
         if self.family.as_deref() == Some("buffered-tail") {
             clients.truncate(2);
             clients.retain(|c| c != "tcpmid" && c != "head");
-            clients.push("h2tail".into());
+            clients.push(if rng.chance(3, 4) { "h2stoptail" } else { "h2tail" }.into());
         } else if self.family.as_deref() == Some("slow-reader") {
             clients.truncate(1);
             clients.retain(|c| c != "tcpmid" && c != "head");
             clients.push("buftail".into());
+        } else if rng.chance(1, 6) {
+            clients.push(if rng.chance(3, 4) { "h2stoptail" } else { "h2tail" }.into());
         }
         let inflight = clients.iter().filter(|c| ["head", "sent", "midbody"].contains(&c.as_str())).count();
         let early = rng.below(inflight as u64 + 1) as usize;
@@ -1205,7 +1244,7 @@ impl Area for Handover {
             for c in &sc.clients {
                 run.r.tags.push(format!("client:{c}"));
             }
-            if n >= 2 || sc.clients.iter().any(|c| ["head", "sent", "midbody", "tcpmid", "buftail", "h2tail"].contains(&c.as_str())) {
+            if n >= 2 || sc.clients.iter().any(|c| ["head", "sent", "midbody", "tcpmid", "buftail", "h2tail", "h2stoptail"].contains(&c.as_str())) {
                 run.r.nontrivial = true;
             }
             if let Err(e) = run_scenario(&sc, &mut run) {
@@ -1216,7 +1255,7 @@ impl Area for Handover {
         run.r.tags = set.into_iter().collect();
         let _ = BTreeMap::<u8, u8>::new();
         if self.family.as_deref() == Some("buffered-tail") {
-            run.r.oracle.retain(|(c, _)| c == "inflight-request-cut:buffered-tail");
+            run.r.oracle.retain(|(c, _)| c == "inflight-request-cut:buffered-tail" || c == "inflight-request-cut:softstop-buffered-tail");
         }
         if self.family.as_deref() == Some("slow-reader") {
             run.r.oracle.retain(|(c, _)| c == "h1-response-truncated:slow-reader-backend-closed");
